@@ -67,7 +67,23 @@ def rule_postlex_cons(ctx: RuleContext, p: Program, rid: str) -> None:
               f'tokens of other types are not yielded unchanged ({passthru})', fn.where, note='yield token; continue')
     groups: Optional[list[str]] = None
     rest_start = None
+    by_index: dict[int, str] = {}
     for i, s in enumerate(lb[1:], 1):
+        # one assignment per group: newline_text = match.group(1) ...
+        if isinstance(s, ast.Assign) and len(s.targets) == 1 and isinstance(s.targets[0], ast.Name) and isinstance(s.value, (ast.Call, ast.Subscript)):
+            v = s.value
+            k = None
+            if isinstance(v, ast.Call) and norm(v.func).endswith('.group') and len(v.args) == 1 and isinstance(v.args[0], ast.Constant):
+                k = v.args[0].value
+            elif isinstance(v, ast.Subscript) and isinstance(v.slice, ast.Constant) and isinstance(v.value, ast.Name):
+                k = v.slice.value
+            if isinstance(k, int) and 1 <= k <= 3:
+                by_index[k] = s.targets[0].id
+                if sorted(by_index) == [1, 2, 3]:
+                    groups = [by_index[1], by_index[2], by_index[3]]
+                    rest_start = i + 1
+                    break
+                continue
         if isinstance(s, ast.Assign) and isinstance(s.targets[0], ast.Tuple) and isinstance(s.value, ast.Call) \
                 and norm(s.value.func).endswith('.groups'):
             groups = [norm(e) for e in s.targets[0].elts]
@@ -169,12 +185,25 @@ def rule_postlex_cons(ctx: RuleContext, p: Program, rid: str) -> None:
     for st in itertools.product([False, True], repeat=len(state_vars)):
         env = dict(zip(state_vars, st))
         out = []
-        run(post, env, out, False)
+        # whatever precedes the flush in the epilogue may only bind further state from the line state
+        try:
+            run([s_ for s_ in post if not (isinstance(s_, ast.Assign) and isinstance(s_.targets[0], ast.Name) and s_.targets[0].id not in state_vars)],
+                env, out, False)
+        except AnalysisError as ex:
+            ep_bad.append(f'the marks emitted at the end of the input depend on something other than the line state '
+                          f'({", ".join(state_vars)}): {str(ex).split(": ", 1)[-1]} -- every line that is not a comment line is closed by one EOL, '
+                          f'also the last one and whether or not the text ends in a line break; the entry rules of the grammar end in EOL, '
+                          f'and a single-entry target relies on "entry + line break" yielding a second EOL that it rejects (otherwise the '
+                          f'line break is accepted but lies outside the model, which then prints without it)')
+            break
         for t, v in out:
             if v or t not in zero_width:
                 ep_bad.append(f'{dict(env)}: flush yields {t} with text {v}')
-    ctx.check(not ep_bad, rid, 'parser:PostLex.process: end-of-stream flush', '; '.join(ep_bad) or 'zero-width',
-              '; '.join(ep_bad), fn.where, note='only zero-width marks after the stream')
+        want_marks = ([consts['_EOL']] if not env.get('prev_is_block_comment', False) else []) + ([consts['_DEDENT_MARK']] if env.get('indented', False) else [])
+        if 'prev_is_block_comment' in env and 'indented' in env and [t for t, _ in out] != want_marks:
+            ep_bad.append(f'{dict(env)}: flush yields {[t for t, _ in out]}, the line structure needs {want_marks}')
+    ctx.check(not ep_bad, rid, 'parser:PostLex.process: end-of-stream flush', '; '.join(ep_bad)[:200] or 'zero-width',
+              '; '.join(ep_bad), fn.where, note='only zero-width marks after the stream: EOL unless a comment line was last, DEDENT_MARK if indented')
     ctx.stats['postlex_valuations'] = cases
     # inline variant passes the stream through untouched
     pli = p.cls('PostLexInline', 'parser')
@@ -357,6 +386,8 @@ def run(ctx: RuleContext, p: Program) -> None:
     ctx.try_rule(rule_print_all, p, 'PRINT-ALL')
     from . import round4
     ctx.try_rule(round4.rule_text_verbatim, p, 'TEXT-VERBATIM')
+    from . import c12
+    ctx.try_rule(c12.rule_gram_look, p, c12.grammar(p), 'GRAM-LOOK')
     ctx.not_decided += ['that lark accepts a given text', 'that the LALR tree\'s leaves are visited in token order', 'CR/LF layouts',
                         'comment attribution effects (C04/C14)', 'spans of sub-models']
     ctx.assumptions += ['lark lexers emit tokens whose values concatenate to the input (contextual lexer, no %ignore left after '
